@@ -45,7 +45,7 @@ def run(rep, tier):
     stats = sites_to_obligations(rep, ra, sites, rows)
     rep.info("site_stats", stats)
 
-    rb = rep.rule("R19.b", "closed forms of gather_bytes, sqrti, memfrob, strcmp(null)", floor=4)
+    rb = rep.rule("R19.b", "closed forms of gather_bytes, sqrti, memfrob, strcmp, rand's range reduction", floor=7)
     ev = symex.Evaluator(F)
     a = [T.V("a%d" % i, 64) for i in range(1, 6)]
     # gather_bytes
@@ -73,6 +73,40 @@ def run(rep, tier):
     rep.ob(rb, "strcmp-null", len(hit) == 1 and hit[0][0] == T.K(64, (1 << 64) - 1) and not hit[0][1].effects,
            "strcmp returns all-ones when either pointer is null, before touching memory",
            expected="path cond `a1 == 0 || a2 == 0` -> 0xffff_ffff_ffff_ffff, no effects", found=[(_sh(v), [_sh(c) for c in s.conds][:2]) for v, s in hit][:2])
+    # strcmp: result after the scan, and the scan itself
+    live = [(v, st) for v, st in outs if not any(c == nullc for c in st.conds)]
+    forms = set()
+    for v, st in live:
+        cs = [c for c in st.conds if c != T.lnot(nullc) and not (isinstance(c, tuple) and c[0] == "land")]
+        if len(cs) == 1 and cs[0][0] == "cmp" and isinstance(v, tuple) and v[0] == "zext" and v[2][0] == "op" and v[2][1] == "sub":
+            hi, lo = v[2][3], v[2][4]
+            c = cs[0]
+            # a >= b -> a - b ; a < b -> b - a   (an absolute difference, operands are the two scanned bytes)
+            if (c[1] == "ule" and c[3] == lo and c[4] == hi) or (c[1] == "uge" and c[3] == hi and c[4] == lo):
+                forms.add("ge")
+            elif (c[1] == "ult" and c[3] == lo and c[4] == hi) or (c[1] == "ugt" and c[3] == hi and c[4] == lo):
+                forms.add("lt")
+    rep.ob(rb, "strcmp-result", len(live) == 2 and forms == {"ge", "lt"}, "strcmp returns the absolute difference of the two bytes the scan stopped at",
+           expected="x >= y -> (x - y) as u64; x < y -> (y - x) as u64", found=[(_sh(v), [_sh(c) for c in st.conds][-1:]) for v, st in live][:3])
+    ok, why = _strcmp_scan(F, ev)
+    rep.ob(rb, "strcmp-scan", ok, "strcmp's scan starts at the two pointers, advances both by one byte per step and stops at the first difference or NUL",
+           expected="x0 = *a1, y0 = *a2; while x == y && x != 0 && y != 0 { a += 1; b += 1; x = *a; y = *b }", found=why)
+    # rand: the reduction into [min, max]
+    evr = symex.Evaluator(F, opaque_calls=lambda q: "LocalKey" in q)
+    outs = evr.run_fn("helpers::rand", list(a)) or []
+    good, found = len(outs) == 3, []
+    for v, st in outs:
+        cs = set(st.conds)
+        span = T.op("sub", 64, a[1], a[0])
+        found.append(([_sh(c) for c in st.conds], _sh(v)[:60]))
+        if T.cmp("ult", 64, a[0], a[1]) in cs and T.cmp("ne", 64, T.K(64, (1 << 64) - 1), span) in cs:
+            ok1 = isinstance(v, tuple) and v[0] == "op" and v[1] == "add" and a[0] in (v[3], v[4])
+            other = (v[4] if v[3] == a[0] else v[3]) if ok1 else None
+            ok1 = ok1 and isinstance(other, tuple) and other[0] == "op" and other[1] == "urem" and other[4] == T.op("add", 64, span, T.K(64, 1)) \
+                and "a1" not in repr(other[3]) and "a2" not in repr(other[3])
+            good = good and ok1
+    rep.ob(rb, "rand-range", good, "rand(min, max) with min < max is n % (max - min + 1) + min (so min <= result <= max), or any u64 when the span is the whole range",
+           expected="min < max && max - min != u64::MAX -> n % (max - min + 1) + min", found=found[:3])
     # memfrob: loop `for i in 0..len { *(ptr+i) ^= 0x2a }`, result 0
     fn = F.fns.get("helpers::memfrob")
     ok, why = _memfrob_shape(F, fn)
@@ -87,6 +121,73 @@ def _sh(t):
         return T.show(t)
     except Exception:
         return repr(t)[:120]
+
+
+def _strcmp_scan(F, ev):
+    fn = F.fns.get("helpers::strcmp")
+    if not fn:
+        return False, "missing"
+    body = fn["thir"]["body"]
+    ids = {}
+    inits = {}
+    for n in walk(body):
+        if n.get("k") == "block":
+            for st in n["stmts"]:
+                if st["k"] == "let" and st["pat"].get("k") == "bind":
+                    ids[st["pat"]["name"]] = st["pat"]["id"]
+    loops = [n for n in walk(body) if n.get("k") == "loop"]
+    if len(loops) != 1:
+        return False, "%d loops" % len(loops)
+    # the four scan variables: two u64 cursors and two u8 values
+    full = ev.run_fn("helpers::strcmp", [T.V("a%d" % i, 64) for i in range(1, 6)]) or []
+    owner = ev.owner_of("helpers::strcmp")
+    A, B, X, Y = T.V("A", 64), T.V("B", 64), T.V("X", 8), T.V("Y", 8)
+    want_names = None
+    for names in (("a", "b", "a_val", "b_val"),):
+        if all(nm in ids for nm in names):
+            want_names = names
+    if want_names is None:
+        return False, "scan variables not found: %s" % sorted(ids)
+    st = symex.St()
+    for nm, val in zip(want_names, (A, B, X, Y)):
+        st = st.set((owner, ids[nm]), val)
+    outs = ev.ev(loops[0]["body"], st, "helpers::strcmp")
+    cont = [s2 for _v, s2 in outs if s2.exit is None or s2.exit[0] == "continue"]
+    brk = [s2 for _v, s2 in outs if s2.exit is not None and s2.exit[0] == "break"]
+    if len(cont) != 1 or not brk:
+        return False, "%d continuing / %d leaving paths" % (len(cont), len(brk))
+    c = cont[0]
+    env = {nm: c.env.get((owner, ids[nm])) for nm in want_names}
+    a1, b1 = T.op("add", 64, A, T.K(64, 1)), T.op("add", 64, B, T.K(64, 1))
+    want_env = {"a": a1, "b": b1, "a_val": ("load", 8, a1), "b_val": ("load", 8, b1)}
+    conj = set()
+    for x in c.conds:
+        stack = [x]
+        while stack:
+            y = stack.pop()
+            if isinstance(y, tuple) and y and y[0] == "land":
+                stack.extend([y[1], y[2]])
+            else:
+                conj.add(y)
+    want_c = {T.cmp("eq", 8, X, Y), T.cmp("ne", 8, X, T.K(8, 0)), T.cmp("ne", 8, Y, T.K(8, 0))}
+    if env != want_env:
+        return False, "step: %s" % {k: _sh(v) for k, v in env.items()}
+    nul = {T.cmp("ne", 8, X, T.K(8, 0)), T.cmp("ne", 8, Y, T.K(8, 0))}
+    if not (T.cmp("eq", 8, X, Y) in conj and conj & nul and conj <= want_c):   # x == y makes one NUL test enough
+        return False, "continue condition: %s" % sorted(_sh(x) for x in conj)
+    # initial values: cursors start at the two argument pointers, the first bytes are read through them
+    pnames = [q["pat"]["name"] for q in fn["thir"]["params"] if q["pat"] and q["pat"]["k"] == "bind"]
+    src = {}
+    for n in walk(body):
+        if n.get("k") == "block":
+            for st2 in n["stmts"]:
+                if st2["k"] == "let" and st2["pat"].get("k") == "bind" and st2["pat"]["name"] in want_names and st2.get("init"):
+                    vs = [x.get("name") for x in walk(st2["init"]) if x.get("k") in ("var", "upvar")]
+                    src[st2["pat"]["name"]] = (vs, any(x.get("k") == "deref" for x in walk(st2["init"])))
+    want_src = {"a": ([pnames[0]], False), "b": ([pnames[1]], False), "a_val": (["a"], True), "b_val": (["b"], True)}
+    if src != want_src:
+        return False, "initial values: %s" % src
+    return True, "one-byte steps on both cursors; continues while equal and non-NUL"
 
 
 def _memfrob_shape(F, fn):
